@@ -20,6 +20,7 @@ func runC04(w *World, r *Report) {
 	defer catalogStatePairs(w, r, "C04-R11")
 	defer c04MarkDiscipline(w, r, "C04-R9")
 	defer c04PerShardMaps(w, r, "C04-R10")
+	defer c04SignalOnlyEmitted(w, r, "C04-R12")
 	r.Rule("C04-R1", "once-only signals", "sends on a channel of *model.BarrierSignal (or inside OnceWriteChan methods) occur only in a function literal passed to sync.Once.Do; NewOnceWriteChan is called inside the per-shard callback of StartReadCollection and inside AddPartitionInfo", 3)
 	r.Rule("C04-R2", "drop requests come only from a completed barrier", "ReplicateAPIEvent literals with EventType DropCollection/DropPartition exist only in completion callbacks passed to NewBarrier and in RecoveryMetaMsg (under IsReady); in NewBarrier's goroutine the call of the completion callback is not reachable from inside the counting loop except through its exit", 5)
 	r.Rule("C04-R3", "barrier arity is the shard count", "the count argument of NewBarrier derives from the length of a shard list declared in the collection's catalog info, not from a local snapshot of registered handlers", 2)
@@ -720,5 +721,53 @@ func c04PerShardMaps(w *World, r *Report, rule string) {
 	}
 	if n == 0 {
 		r.Undecided(rule, "StartReadCollection | startReadChannel", fn.Pos(), "call not found")
+	}
+}
+
+// c04SignalOnlyEmitted (C04-R12, shared with C02): a shard signals a drop barrier only for a drop message it also emits.
+// Inside the drop arms of handlePack, once the barrier channel was written no path of that arm may still skip the
+// message (continue): the barrier completes on the signal, the drop request goes out and the object is marked dropped
+// while this shard's own drop message — which has to be re-addressed and emitted — is thrown away.
+func c04SignalOnlyEmitted(w *World, r *Report, rule string) {
+	r.Rule(rule, "a shard signals the barrier only for a message it emits", "handlePack: from a Write on BarrierChan / a PartitionBarrierChan entry, no block of the same type-switch arm that is still reachable jumps back to the loop head (no skip after the signal)", 2)
+	m := buildHPModel(w)
+	if m.Err != "" || m.LoopHeader == nil {
+		r.Undecided(rule, "handlePack model", 0, m.Err)
+		return
+	}
+	n := 0
+	eachInstr(m.Fn, func(in ssa.Instruction) {
+		c, ok := in.(*ssa.Call)
+		if !ok || callSym(c.Common()).name != "Write" || callSym(c.Common()).recv != "OnceWriteChan" {
+			return
+		}
+		arm := m.armOf(c)
+		if arm == "" {
+			return
+		}
+		n++
+		reach := blockReach(c.Block(), map[*ssa.BasicBlock]bool{m.LoopHeader: true})
+		reach[c.Block()] = true
+		var bad token.Pos
+		for b := range reach {
+			if len(b.Instrs) == 0 || !m.inArm(arm, b.Instrs[0]) {
+				continue
+			}
+			for _, sc := range b.Succs {
+				if sc == m.LoopHeader {
+					if b == c.Block() {
+						// the jump follows the write only if the write is not the block's last effect before it
+					}
+					bad = b.Instrs[len(b.Instrs)-1].Pos()
+					if !bad.IsValid() {
+						bad = c.Pos()
+					}
+				}
+			}
+		}
+		r.Check(!bad.IsValid(), rule, fmt.Sprintf("handlePack | %s arm: barrier signal #%d is the arm's last decision", arm, n), c.Pos(), "no skip is reachable in the arm after the signal", "after the barrier was signalled the arm can still skip the message (continue): when the downstream id is not resolved yet the barrier completes on this signal, the drop is requested and the partition marked dropped, and this shard's drop message is skipped instead of being re-addressed and emitted")
+	})
+	if n == 0 {
+		r.Undecided(rule, "handlePack | barrier signals", m.Fn.Pos(), "no OnceWriteChan.Write found in the type-switch arms")
 	}
 }
